@@ -661,6 +661,12 @@ func (r *ccipChainReader) GetRMNRemoteConfig(
 	}
 	r.lggr.Infow("got RMNRemote report digest header", "digest", header.DigestHeader)
 
+	// The digest is converted to a 32 byte array below, which panics for any other length.
+	if len(vc.Config.RMNHomeContractConfigDigest) != len(cciptypes.Bytes32{}) {
+		return rmntypes.RemoteConfig{}, fmt.Errorf("invalid RMNHome contract config digest length %d, expected %d",
+			len(vc.Config.RMNHomeContractConfigDigest), len(cciptypes.Bytes32{}))
+	}
+
 	signers := make([]rmntypes.RemoteSignerInfo, 0, len(vc.Config.Signers))
 	for _, signer := range vc.Config.Signers {
 		signers = append(signers, rmntypes.RemoteSignerInfo{
